@@ -119,7 +119,7 @@ class C20:
                    'D45 (more than 8 pending long double temporaries overflow the x87 register stack) recorded: expressions here nest at most 3 long double temporaries']
 
     def budget(self, tier):
-        return 1600 if tier == 'quick' else 40000
+        return 1600 if tier == 'quick' else 20000
 
     def gen_case(self, ch):
         T, kT = ch.choice(TYPES)
